@@ -52,7 +52,7 @@ P = {
  'C06': dict(families=[('mixed', 150, 2500, 120), ('iter', 100, 1500, 120), ('entry', 60, 1000, 120), ('clone', 80, 1200, 120), ('core', 60, 1000, 120)], aspects='RSDK', profiles=['debug', 'release'],
              theorems=['C06_moves_drop_nothing', 'C06_insert_drops_duplicate_key_only', 'C06_remove_hands_back', 'C06_lookup_drops_nothing', 'C06_reserve_drops_nothing',
                        'C06_shrink_drops_nothing', 'C06_iter_drops_nothing', 'C06_clone_drops_nothing', 'C06_eq_drops_nothing', 'C06_clear_drops_each_once', 'C06_drop_map_drops_each_once',
-                       'C06_drain_drops_the_rest_once', 'C06_into_iter_drops_the_rest_once', 'C06_retain_conserves_keys', 'C06_lite_reachable']),
+                       'C06_drain_drops_the_rest_once', 'C06_into_iter_drops_the_rest_once', 'C06_retain_conserves_keys', 'C06_drain_filter_conserves_keys', 'C06_lite_reachable']),
  'C13': dict(families=[('set', 120, 1500, 120)], aspects='RSD', profiles=['debug', 'release'],
              theorems=['C13_element_ops_refine', 'C13_algebra', 'C13_predicates', 'C13_iter_each_once']),
  'C07': dict(families=[('fuse', 300, 4000, 120)], aspects='RSDKA', profiles=['debug', 'release'],
@@ -274,6 +274,15 @@ def main():
         problems.append('Coq development does not build: ' + log[-1200:])
     aud, assumptions, nlemmas = audit(prop, cfg['theorems']) if okb else ([], {}, 0)
     problems += aud
+    coqchk_note = 'not run (quick tier)'
+    if okb and not aud and tier != 'quick':
+        # the independent checker re-checks the property file and everything it depends on
+        code, out = sh(f'cd coq && timeout 1500 coqchk -o -silent -Q . G G.Prop_{prop} 2>&1', timeout=1600)
+        m = re.search(r'\* Axioms:\s*(.*?)\n\s*\n', out, flags=re.S)
+        axioms = m.group(1).strip() if m else '?'
+        coqchk_note = f'coqchk -o exit {code}; Axioms: {axioms}'
+        if code != 0 or axioms != '<none>':
+            problems.append('coqchk does not accept Prop_%s.vo axiom-free: %s' % (prop, out[-600:]))
 
     # 2-4. correspondence + monitors on the real crate
     okt, msg = build_tools(cfg['profiles'])
@@ -366,7 +375,8 @@ def main():
             trusted_base=['Coq 8.16.1 kernel (coqc; no native_compute; vm_compute only in Examples)',
                           'std++ 1.8.0 (gmap, list), Coq stdlib (NArith, Lia)',
                           'Print Assumptions of every theorem in Prop_%s.v: %s' % (prop, ', '.join(f'{k}: {v}' for k, v in assumptions.items()) or 'n/a'),
-                          'extraction (ExtrOcamlBasic only, no Extract Constant) + OCaml 4.13 comparator ocaml/driver.ml',
+                          'coqchk: ' + coqchk_note,
+                          'extraction (ExtrOcamlBasic only, no Extract Constant of our own) + OCaml 4.13 comparator ocaml/driver.ml',
                           'Rust harness (generators, hook readers, counting allocator/hasher, ledger) and the cfg(griddle_verif) hook in griddle',
                           'hashbrown 0.14.5 modelled by contract (DESIGN.md section 3.3), its layout-dependent choices read from the implementation as oracle values'],
             traces_validated_against_impl=sum(r.get('compared_histories', 0) for r in runs),
